@@ -39,6 +39,8 @@ type c14Shape struct {
 	n      int // containers
 	query  string
 	params logqlengine.EvalParams
+	// invalid: the query holds an invalid stage / unsupported construct: Eval must fail even without a fault
+	invalid bool
 }
 
 var c14Shapes = []c14Shape{
@@ -49,6 +51,10 @@ var c14Shapes = []c14Shape{
 	{name: "count-range-2", n: 2, query: `sum by (container) (count_over_time({}[2s]))`, params: logqlengine.EvalParams{Start: otelstorage.Timestamp(1 * sec), End: otelstorage.Timestamp(5 * sec), Step: 2 * time.Second, Limit: -1}},
 	{name: "count-instant-3", n: 3, query: `count_over_time({}[5s])`, params: logqlengine.EvalParams{Start: otelstorage.Timestamp(4 * sec), End: otelstorage.Timestamp(4 * sec), Limit: -1}},
 	{name: "binop-2x1", n: 2, query: `sum(count_over_time({container="n0"}[5s])) + sum(count_over_time({container="n1"}[5s]))`, params: logqlengine.EvalParams{Start: otelstorage.Timestamp(4 * sec), End: otelstorage.Timestamp(4 * sec), Limit: -1}},
+	{name: "invalid-right-pattern", n: 2, invalid: true, query: `sum(count_over_time({}[3s])) + sum(count_over_time({} | pattern "<a><b>" [3s]))`, params: logqlengine.EvalParams{Start: otelstorage.Timestamp(4 * sec), End: otelstorage.Timestamp(4 * sec), Limit: -1}},
+	{name: "invalid-right-template", n: 2, invalid: true, query: `sum(count_over_time({}[3s])) / sum(count_over_time({} | line_format "{{ .a | nosuchfunc }}" [3s]))`, params: logqlengine.EvalParams{Start: otelstorage.Timestamp(2 * sec), End: otelstorage.Timestamp(4 * sec), Step: time.Second, Limit: -1}},
+	{name: "invalid-right-unsupported", n: 1, invalid: true, query: `sum(count_over_time({}[3s])) * sum(absent_over_time({}[3s]))`, params: logqlengine.EvalParams{Start: otelstorage.Timestamp(4 * sec), End: otelstorage.Timestamp(4 * sec), Limit: -1}},
+	{name: "invalid-log-jsonpath", n: 2, invalid: true, query: `{} | json x="a..["`, params: logqlengine.EvalParams{Start: 0, End: otelstorage.Timestamp(10 * sec), Step: time.Second, Limit: -1}},
 	{name: "binop-2x2", n: 2, query: `sum(count_over_time({}[3s])) / sum(count_over_time({} |= "m"[2s]))`, params: logqlengine.EvalParams{Start: otelstorage.Timestamp(2 * sec), End: otelstorage.Timestamp(4 * sec), Step: time.Second, Limit: -1}},
 }
 
@@ -238,11 +244,17 @@ func c14Oracle(in c14Input, o c14Obs) string {
 		return "panic: " + strings.Join(o.Panics, "; ")
 	}
 	for i := range o.Opened {
-		if o.Opened[i] != o.Closed[i] {
+		if o.Closed[i] < o.Opened[i] {
 			return fmt.Sprintf("container %d: %d log reader(s) opened, %d closed when Eval returned (err=%q)", i, o.Opened[i], o.Closed[i], o.Err)
 		}
 	}
 	// a stream that simply ends at a frame boundary or inside a header is a shorter, clean log (C03)
+	if sh.invalid {
+		if o.Err == "" {
+			return "the query holds an invalid stage but Eval returned a result: " + o.Result
+		}
+		return ""
+	}
 	if o.Err == "" && o.Result != base.Result && in.Fault.Kind != "truncate" {
 		return "evaluation succeeded with a result that differs from the fault-free one (silently truncated): " + o.Result + " vs " + base.Result
 	}
@@ -350,6 +362,9 @@ func c14Run(r *vkit.Run) {
 			for j := i + 1; j < sh.n; j++ {
 				emit(c14Input{Shape: sh.name, Fault: c14Fault{Kind: "open2", Ctr: i, Ctr2: j}, Mode: openMode, Bound: openBound})
 			}
+		}
+		if sh.invalid {
+			continue
 		}
 		// read-time faults act after Wait returned: every completion order, plus preemption bound 1 on the default order
 		ps := perms(sh.n)
